@@ -39,6 +39,7 @@ ASSUMPTIONS = [
 ]
 MAIN = "file:///zcv/main.conf"
 META = "<>/%#()${} \t"
+UBLANKS = ["\u00a0", "\u3000", "\u2028", "\u0085", "\x1c", "\x1f", "\u2003", "\x0b", "\x0c"]
 import re as _re
 _GTOKEN = _re.compile(r"</|/>|<|>|%|\s+|[^\s<>%]+")
 
@@ -46,8 +47,26 @@ _GTOKEN = _re.compile(r"</|/>|<|>|%|\s+|[^\s<>%]+")
 def mutate(rng, text, nops=None):
     nops = nops or rng.randint(1, 4)
     for _ in range(nops):
-        level = rng.choice(["char", "char", "token", "line", "gtoken"])
-        if level == "gtoken":
+        level = rng.choice(["char", "char", "token", "line", "gtoken", "gtoken", "char", "char", "token", "line", "blank"])
+        if level == "blank":
+            # the blanks of the grammar are whatever the language calls white space: a blank is
+            # exchanged for, or the whole rest of a line replaced by, one that is not ASCII
+            lines = text.split("\n")
+            cand = [k for k, l in enumerate(lines) if " " in l.strip()]
+            if not cand:
+                continue
+            li = rng.choice(cand)
+            l = lines[li]
+            ub = rng.choice(UBLANKS)
+            if rng.random() < 0.5:
+                head = l.split(None, 1)[0]
+                lines[li] = l[:l.index(head) + len(head)] + " " + ub * rng.randint(1, 2)
+            else:
+                pos = [k for k, ch in enumerate(l) if ch == " "]
+                k = rng.choice(pos)
+                lines[li] = l[:k] + ub + l[k + 1:]
+            text = "\n".join(lines)
+        elif level == "gtoken":
             # tokens of the line grammar: '<' '</' '/>' '>' '%' words and runs of blanks
             lines = text.split("\n")
             cand = [k for k, l in enumerate(lines) if l.strip()[:1] in ("<", "%")] or list(range(len(lines)))
